@@ -205,13 +205,53 @@ pub fn c04_check(sc: &SScenario) -> CaseResult {
     ops.push(SOp::Drain);
     ops.push(SOp::Budget { n: 255 });
     ops.push(SOp::Drain);
-    let run = run_server(&sc.cfg, &ops, true);
+    let steer = !sc.ops.iter().any(|o| matches!(o, SOp::Marker(99)));
+    let run = run_server(&sc.cfg, &ops, steer);
     let v = SView::new(&run);
     if let Some(m) = common(&v) {
         return fail(&v, m);
     }
     if let Some(m) = v.model_violations.first() {
         return fail(&v, format!("{m} (responses must not be transmitted for cancelled requests)"));
+    }
+    // a cancellation the peer has sent for a request still being processed must be acted upon even
+    // while the response sink is not ready: at quiescence it may not sit unread behind a live channel
+    {
+        let mut sent: Vec<(usize, u64, usize)> = vec![]; // (seq, id, inst)
+        let mut read_cancels: Vec<(usize, u64)> = vec![];
+        for r in &run.recs {
+            match &r.ev {
+                Ev::Note { text } if text.starts_with("CancelSent") && !text.ends_with("inst=None") => {
+                    let id: u64 = text.split_whitespace().find_map(|w| w.strip_prefix("id=")).and_then(|x| x.parse().ok()).unwrap_or(0);
+                    let inst: usize = text.split("inst=Some(").nth(1).and_then(|x| x.trim_end_matches(')').parse().ok()).unwrap_or(usize::MAX);
+                    sent.push((r.seq, id, inst));
+                }
+                Ev::Io { tr: 1, op: IoOp::Next, res: IoRes::Item(Msg::Cancel { id, .. }), .. } => read_cancels.push((r.seq, *id)),
+                _ => {}
+            }
+        }
+        for q in v.quiescent.iter().filter(|q| q.probes.dispatch_alive) {
+            for (sseq, id, inst) in sent.iter().filter(|(s, _, _)| *s < q.seq) {
+                let read = read_cancels.iter().any(|(rs, rid)| rid == id && rs > sseq && *rs < q.seq);
+                if read || *inst >= v.tl.len() {
+                    continue;
+                }
+                let t = &v.tl[*inst];
+                let still_running = t.read.map_or(false, |r| r.0 < q.seq)
+                    && t.end.as_ref().map_or(true, |e| e.seq() > q.seq)
+                    && !t.ambiguous_dup;
+                if still_running && (q.t_ns as i128) < run.insts[*inst].deadline_ns {
+                    let region = sc.cfg.limit.map_or(false, |l| q.probes.server_in_flight.unwrap_or(0) >= l) && sink_blocked(q, sc.cfg.cap);
+                    let viol = Violation::new(format!(
+                        "the peer sent Cancel({id}) (seq {sseq}) for request instance {inst}, which is still being processed, but at quiescence (seq {}) the channel has not acted on it: the handler can still make progress and the request still counts as in flight{}",
+                        q.seq,
+                        if region { " (request limit reached and response sink not ready)" } else { "" }
+                    ))
+                    .with_detail(json!({"history_tail": v.tail(90)}));
+                    return Err(if region { viol.with_sig("limiter-blocks-housekeeping") } else { viol });
+                }
+            }
+        }
     }
     let mut hit_running = false;
     for (i, t) in v.tl.iter().enumerate() {
@@ -293,7 +333,8 @@ pub fn c06_check(sc: &SScenario) -> CaseResult {
     ops.push(SOp::Drain);
     ops.push(SOp::AdvancePastDeadlines);
     ops.push(SOp::Drain);
-    let run = run_server(&sc.cfg, &ops, true);
+    let steer = !sc.ops.iter().any(|o| matches!(o, SOp::Marker(99)));
+    let run = run_server(&sc.cfg, &ops, steer);
     let v = SView::new(&run);
     if let Some(m) = common(&v) {
         return fail(&v, m);
@@ -326,10 +367,14 @@ pub fn c06_check(sc: &SScenario) -> CaseResult {
             let finished = t.completed.as_ref().map_or(false, |c| c.0 < q.seq);
             if started && !finished {
                 if t.handler_dropped.map_or(true, |h| h.0 > q.seq) {
-                    return fail(&v, format!(
-                        "at quiescence (seq {}, t={}ns) the handler of request instance {i} (id {}, deadline {d}ns, read at {rt}ns) is still alive more than a timer granule after its deadline",
-                        q.seq, q.t_ns, run.insts[i].id
-                    ));
+                    let region = sc.cfg.limit.map_or(false, |l| q.probes.server_in_flight.unwrap_or(0) >= l) && sink_blocked(q, sc.cfg.cap);
+                    let viol = Violation::new(format!(
+                        "at quiescence (seq {}, t={}ns) the handler of request instance {i} (id {}, deadline {d}ns, read at {rt}ns) is still alive more than a timer granule after its deadline{}",
+                        q.seq, q.t_ns, run.insts[i].id,
+                        if region { " (request limit reached and response sink not ready)" } else { "" }
+                    ))
+                    .with_detail(json!({"history_tail": v.tail(90)}));
+                    return Err(if region { viol.with_sig("limiter-blocks-housekeeping") } else { viol });
                 }
                 expired_insts.push(i);
             }
